@@ -571,7 +571,38 @@ def check_e2e(case, ctx):
     perm = copy.deepcopy(base)
     perm["units"] = [base["units"][j] for j in order]
 
-    r1 = run_case(base, keep_client=False)
+    fits = []
+    if pi == "nonparametric":
+        # observe the matrices the conformal models are actually fitted on (point fit: all reporting rows;
+        # interval fits: the training rows of the calibration split)
+        import elexmodel.models.ConformalElectionModel as CEM
+
+        fe_names = list(req["fe"]) if isinstance(req["fe"], list) else list(req["fe"].keys())
+        orig_fit = CEM.ConformalElectionModel.fit_model
+
+        def recording_fit(self, model, df_X, df_y, tau, weights, normalize_weights):
+            const = [c for c in df_X.columns if c.startswith(tuple(n + "_" for n in fe_names)) and df_X[c].nunique() <= 1]
+            fits.append({"tau": float(tau), "rows": len(df_X), "columns": list(df_X.columns), "constant_dummies": const})
+            return orig_fit(self, model, df_X, df_y, tau, weights, normalize_weights)
+
+        CEM.ConformalElectionModel.fit_model = recording_fit
+        try:
+            r1 = run_case(base, keep_client=False)
+        finally:
+            CEM.ConformalElectionModel.fit_model = orig_fit
+    else:
+        r1 = run_case(base, keep_client=False)
+    for f in fits:
+        if f["constant_dummies"]:
+            ctx.violation(
+                "constant_dummy_on_fitting_rows",
+                f"fit at tau={f['tau']} on {f['rows']} rows: fitted dummy columns {f['constant_dummies']} are constant on the fitting rows",
+                case,
+                sig="constant_dummy:" + ("median" if f["tau"] == 0.5 else "interval"),
+            )
+            break
+    if fits:
+        ctx.label("e2e_fit_matrices_observed", len(fits))
     if not r1.ok:
         if common.is_gate_error(r1.exc):
             ctx.label("e2e_outcome:too_few_units")
